@@ -199,6 +199,7 @@ def draw_c18_cfg(rng, tier):
         "p_nested": rng.choice([0.0, 0.3, 0.6]),
         "p_fault": rng.choice([0.0, 0.0, 0.15, 0.3]),
         "p_io": rng.choice([0.0, 0.0, 0.05, 0.3]),
+        "p_clear": rng.choice([0.0, 0.0, 0.2, 0.5]),
         "init_nodes": rng.randint(1, 8),
         "reader_ops": rng.sample(READER_OPS, rng.randint(2, len(READER_OPS))),
         "unique_labels": True,
@@ -434,6 +435,12 @@ def c18_run(base_seed, index, tier, nt, *, forced=None, cfg_override=None,
                                      "src": {"data": f"s:m{tid}.{cs}.x"},
                                      **({"kind": "k0"} if typed else {})}, index_every=False)
                     sched.pause()
+                    if cfg.get("p_clear") and rng.random() < cfg["p_clear"]:
+                        # a transaction that empties the tree and rebuilds it: a reader
+                        # must never see (or act on) the transiently empty tree
+                        run_step(world, {"id": 100005 + tid * 1000 + cs * 10, "k": "clear",
+                                         "slot": 0}, index_every=False)
+                        sched.pause()
                     if "save_meta" in cfg["reader_ops"]:
                         # edit the metadata dicts that a save_meta snapshot aliases
                         stamped = [m for m in slot.model.root.iter_pre() if m.explicit][:2]
